@@ -6,8 +6,8 @@ import re
 
 def plan(tier, seed):
     J = lambda name, B=2, **p: {"id": f"C18:{name} {p} B={B}", "module": "vf.genjobs", "func": "gen_job", "params": dict(name=name, params=p, B=B)}  # noqa: E731
-    jobs = [J("tsp", num_loc=3), J("cvrp", num_loc=3), J("cvrp", num_loc=3, capacity=10.0), J("cvrp", num_loc=3, capacity=12.5), J("op", num_loc=3, prize_type="unif"), J("op", num_loc=3, prize_type="const"),
-            J("pctsp", num_loc=3), J("pdp", num_loc=4), J("mdcpdp", num_loc=4, num_depot=2), J("mdcpdp", num_loc=2, num_depot=3, depot_mode="single"), J("mtsp", num_loc=4), J("svrp", num_loc=3), J("atsp", num_loc=3), J("atsp", num_loc=3, tmat_class=False),
+    jobs = [J("tsp", num_loc=3), J("tsp", num_loc=4, loc_distribution="cluster", n_cluster=2), J("tsp", num_loc=4, loc_distribution="mixed", n_cluster_mix=1), J("cvrp", num_loc=3), J("cvrp", num_loc=3, capacity=10.0), J("cvrp", num_loc=3, capacity=12.5), J("op", num_loc=3, prize_type="unif"), J("op", num_loc=3, prize_type="const"),
+            J("pctsp", num_loc=3), J("pdp", num_loc=4), J("pdp", num_loc=3), J("mdcpdp", num_loc=4, num_depot=2), J("mdcpdp", num_loc=2, num_depot=3, depot_mode="single"), J("mtsp", num_loc=4), J("svrp", num_loc=3), J("atsp", num_loc=3), J("atsp", num_loc=3, tmat_class=False),
             J("smtwtp", num_job=3), J("ffsp", num_stage=2, num_machine=2, num_job=2), J("flp", num_loc=3, to_choose=2), J("mcp", num_items=3, num_sets=3, min_size=1, max_size=2, n_sets_to_choose=2),
             J("cvrptw", B=1, num_loc=2), J("mtvrp", num_loc=3, variant_preset="all"), J("mtvrp", num_loc=3, variant_preset="vrptw"), J("mtvrp", num_loc=3, variant_preset="ovrpbltw"), J("mtvrp", num_loc=3, variant_preset="single_feat"), J("mtvrp", num_loc=3, variant_preset="single_feat_otw"),
             J("dpp", B=2, size=3, num_keepout_min=1, num_keepout_max=4, max_decaps=2), J("mdpp", B=1, size=3, num_keepout_min=1, num_keepout_max=3, num_probes_min=1, num_probes_max=3, max_decaps=2),
@@ -23,7 +23,7 @@ def plan(tier, seed):
     return {"jobs": jobs, "level": "model_checking",
             "bounds": "sizes n<=5 (one off-table CVRP size 22), B<=2; EVERY sampler outcome (each rand/randint/uniform/randperm/multinomial draw is a solver variable over its documented support); "
                       "configurations listed per job (capacity overrides, prize types, all 16 MTVRP presets in the thorough tier, scaled/unscaled CVRPTW windows, scheduling shapes)",
-            "outside": "float32 rounding inside the generators (reals are exact); non-uniform location distributions of distribution_utils (cluster / mixed / gaussian-mixture samplers); OP prize_type='dist' (division by a symbolic maximum); "
+            "outside": "float32 rounding inside the generators (reals are exact); the gaussian-mixture and mix_distribution location samplers (cluster and mixed ARE covered); OP prize_type='dist' (division by a symbolic maximum); "
                        "solvability of generated instances is decided by C02 on instance sets that contain every generated instance (the contracts proven here)"}
 
 
